@@ -56,6 +56,19 @@ func (n *NCS) handle(w http.ResponseWriter, r *http.Request) {
 	case "slow":
 		time.Sleep(300 * time.Millisecond)
 		w.WriteHeader(http.StatusOK)
+	case "hang":
+		// answers, but only after several seconds
+		time.Sleep(3 * time.Second)
+		w.WriteHeader(http.StatusOK)
+	case "drop":
+		// reads the request, then drops the connection without answering
+		if hj, ok := w.(http.Hijacker); ok {
+			if conn, _, err := hj.Hijack(); err == nil {
+				conn.Close()
+				return
+			}
+		}
+		w.WriteHeader(http.StatusBadGateway)
 	case "500":
 		w.WriteHeader(http.StatusInternalServerError)
 	default:
